@@ -105,23 +105,24 @@ func c12Run(sc *C12Scenario, withUntrusted bool, flags map[string]bool) (out *c1
 			hm := wire.NewMsgHeaders()
 			var first *verifkit.TBlock
 			linked := true
-			var prev *verifkit.TBlock
+			var prevHash *bitcoin.Hash32
 			for i, n := range ev.Names {
 				var h wire.BlockHeader
 				if b, ok := tree.ByName[n]; ok {
 					h = b.Header
 					if i == 0 {
 						first = b
-					} else if prev == nil || b.Parent != prev {
-						linked = false
 					}
-					prev = b
 				} else {
 					h = unknownHeader(tree, n)
+				}
+				// linked = every header names the hash of the one before it (an unknown header built on
+				// the previous one is linked)
+				if i > 0 && (prevHash == nil || h.PrevBlock != *prevHash) {
 					linked = false
-					prev = nil
 				}
 				hh := h
+				prevHash = hh.BlockHash()
 				_ = hm.AddBlockHeader(&hh)
 			}
 			tipBefore := sn.node.blocks.LastHeight()
